@@ -370,7 +370,27 @@ func genC20(t *rapid.T) *Bundle {
 	varCorunner := false
 	// a source that mixes objects and arrays of objects (every non-dual query of the history reads it)
 	ragged := rapid.IntRange(0, 9).Draw(t, "ragged_source") == 0
+	reexecs := 0
 	for qi := 0; qi < nq; qi++ {
+		// now and then Exec is called once more on a *Query built earlier in the history (other queries over the same
+		// map have run since): the model evaluates that query's items again, against the registers as they are now
+		if qi >= 2 && reexecs == 0 && !ragged && rapid.IntRange(0, 3).Draw(t, "reexec") == 0 {
+			k := rapid.IntRange(0, qi-2).Draw(t, "reexec_of")
+			q := exp.Queries[k]
+			q.Twice = false
+			rows, _ := c20Model(&q, table, model)
+			snap := map[string]any{}
+			for kk, v := range model {
+				snap[kk] = v
+			}
+			exp.Queries = append(exp.Queries, q)
+			exp.Rows = append(exp.Rows, rows)
+			exp.Rows2 = append(exp.Rows2, nil)
+			exp.Vars = append(exp.Vars, snap)
+			ops = append(ops, casefmt.Op{Doc: 0, Vars: 0, Query: q.SQL, ReexecOf: k + 1})
+			reexecs++
+			continue
+		}
 		q := c20Query{WhereK: -1}
 		q.Dual = rapid.IntRange(0, 5).Draw(t, "dual") == 0
 		q.Grid = !q.Dual && rapid.IntRange(0, 5).Draw(t, "grid") == 0
@@ -536,6 +556,15 @@ func genC20(t *rapid.T) *Bundle {
 		Clients: []casefmt.Client{{Name: "client0", Ops: ops}}}
 	c.Stubs.Lat = drawLatencies(t, sites, 5)
 	tags := []string{}
+	if reexecs > 0 {
+		tags = append(tags, "reexec_after_other_queries")
+	}
+	// a caller that prepares all its queries before it runs the first: nothing of a query is evaluated when it is built
+	// (no derived tables or joins here), so the history - and the model - is the same
+	if nq > 1 && rapid.IntRange(0, 3).Draw(t, "build_first") == 0 {
+		c.Clients[0].BuildFirst = true
+		tags = append(tags, "build_first")
+	}
 	if len(sites) > 0 {
 		tags = append(tags, "with_async_corunners")
 	}
